@@ -456,6 +456,36 @@ func c03CapNames(c *eng.Ctx) {
 		} else {
 			c.OK(f, "deny sets exactly the deny bit", f.Pos(), "deny arm stores the deny bit alone")
 		}
+		// ... and nothing is ORed into that rule's bitmap afterwards (deny ends the capability list of
+		// the rule; the next rule starts from a bitmap reset to 0) — seed C03-b: `goto PathFinished` -> `break`
+		c.Clause("R3", "C03.2")
+		var denySt, initSt, orSt []ssa.Instruction
+		for _, st := range eng.Stores(f, `\.CapabilitiesBitmap$`) {
+			switch v := st.Val.(type) {
+			case *ssa.Const:
+				if eng.Expr(v) == deny {
+					denySt = append(denySt, st)
+				} else if eng.Expr(v) == "0" {
+					initSt = append(initSt, st)
+				}
+			case *ssa.BinOp:
+				if v.Op.String() == "|" {
+					orSt = append(orSt, st)
+				}
+			}
+		}
+		if c.Floor(f, "bitmap reset per rule", len(initSt), 1) && c.Floor(f, "capability bits ORed in", len(orSt), 1) && len(denySt) > 0 {
+			bad := false
+			for _, d := range denySt {
+				if h := eng.Reach(eng.Query{Fn: f, StartAfter: d, Barriers: initSt, Target: eng.IsTarget(orSt)}); h != nil {
+					bad = true
+					c.Violation(f, "deny ends the rule's capability list", h.Instr.Pos(), "after the deny bit was stored further capabilities can be ORed into the same rule's bitmap: [\"deny\", \"read\"] would grant read", h.Witness)
+				}
+			}
+			if !bad {
+				c.OK(f, "deny ends the rule's capability list", denySt[0].Pos(), "no OR into the bitmap is reachable from the deny store before the next rule resets it")
+			}
+		}
 	}
 }
 
